@@ -260,6 +260,18 @@ def check(case, ctx):
                                                            f"built-in: {[(e, type(e.path).__name__) for e in o1]!r}\n"
                                                            f"wrapped : {[(e, type(e.path).__name__) for e in o2]!r}")
 
+    # a root path of one's own, passed through validate(): both trees report below it
+    for rec in case["values"][:3]:
+        v = values.realize(rec)
+        try:
+            n1 = validate(T, v, path=PathHolder("body")).get_errors()
+            n2 = validate(T2, v, path=PathHolder("body"), **MK).get_errors()
+        except Exception:  # noqa
+            continue
+        r1_, r2_ = sorted(repr(e.path) for e in n1), sorted(repr(e.path) for e in n2)
+        if r1_ != r2_:
+            raise Violation("named-root-path-differs", f"validate(..., {v!r}, path=PathHolder('body'))\nbuilt-in: {r1_!r}\nwrapped : {r2_!r}")
+
     # generation under one RNG script
     volatile = any(s["t"] in ("uuid4", "datetime", "date") and "value" not in s for s, _ in specs.walk(spec))
     try:
